@@ -19,8 +19,10 @@ type Ctx struct {
 	P    *ir.Program
 	R    *report.Run
 	Tier string
-	cur  string // current rule id
-	wp   *whole // lazily built whole-program facts (call graph etc.)
+	// ids of the rules already run for this property (an id is used once)
+	seenRules map[string]bool
+	cur       string // current rule id
+	wp        *whole // lazily built whole-program facts (call graph etc.)
 
 	lf         *lockFacts
 	cg         *callGraph
@@ -53,6 +55,13 @@ type anchorErr struct{ what string }
 // rule runs one rule; a missing anchor symbol or an engine panic makes the
 // rule's obligation undecided (which fails), never silently discharged.
 func (c *Ctx) rule(id, decides string, body func()) {
+	if c.seenRules == nil {
+		c.seenRules = map[string]bool{}
+	}
+	if c.seenRules[id] {
+		c.R.Add(report.Ob{Rule: id, Construct: "rule table", Status: report.Undecided, Detail: "two rules are registered under the id " + id + " (defect of the checker)"})
+	}
+	c.seenRules[id] = true
 	c.R.Describe(id, decides)
 	prev := c.cur
 	c.cur = id
